@@ -33,6 +33,7 @@ type StepObs struct {
 	MPool   [NAddr]int     // references in the guest-module usage pool, per key
 	Writers [NAddr]int     // references in caddy's writers pool: [0] = stderr (relative to the start of the case), [k] = probe writer k
 	PP, PS  []int          // observed provisioning / start order (prefix, failing app last)
+	DStor   int            // which storage certmagic.Default.Storage is (0 caddy.DefaultStorage, k probe storage k)
 	Alive   []int          // context numbers of configurations that are NOT running (rejected, replaced, validated, stopped) whose context.Context has not been cancelled
 	Err     string         // error text (diagnostics only)
 	Extra   map[string]int // goroutines, fds (diagnostics / growth oracle)
@@ -130,6 +131,18 @@ func adminDo(method, path string, body []byte) (int, []byte) {
 	req := httptest.NewRequest(method, "http://localhost"+path, rd)
 	if body != nil {
 		req.Header.Set("Content-Type", "application/json")
+	}
+	rec := httptest.NewRecorder()
+	adminH.ServeHTTP(rec, req)
+	return rec.Code, rec.Body.Bytes()
+}
+
+// adminPost: POST with an explicit Content-Type and, if force, Cache-Control: must-revalidate.
+func adminPost(path, ctype string, body []byte, force bool) (int, []byte) {
+	req := httptest.NewRequest("POST", "http://localhost"+path, bytes.NewReader(body))
+	req.Header.Set("Content-Type", ctype)
+	if force {
+		req.Header.Set("Cache-Control", "must-revalidate")
 	}
 	rec := httptest.NewRecorder()
 	adminH.ServeHTTP(rec, req)
@@ -351,6 +364,7 @@ func RunCase(ops []Op, enforce bool) []StepObs {
 	defer func() { _ = caddy.Stop() }()
 	time.Sleep(0)
 	stderr0 := caddy.VerifWritersSnapshot()["std:err"]
+	certmagic.Default.Storage = caddy.DefaultStorage // process-global: every case starts from the same value
 
 	var out []StepObs
 	var running *Cfg // the harness's own account of what should be running (spec)
@@ -373,10 +387,16 @@ func RunCase(ops []Op, enforce bool) []StepObs {
 		case 'L':
 			c := op.Cfg
 			attempted = &c
-			if op.Env.Force {
-				err = caddy.Load(Render(c, op.Env.Adm >= 1), true)
-			} else {
-				err = adminErr(adminDo("POST", "/config/", Render(c, op.Env.Adm >= 1)))
+			js := Render(c, op.Env.Adm >= 1)
+			switch op.Env.via() {
+			case 1:
+				err = caddy.Load(js, true)
+			case 2, 3:
+				err = adminErr(adminPost("/load", "application/json", js, op.Env.via() == 3))
+			case 4, 5:
+				err = adminErr(adminPost("/load", "text/verifabs", []byte(c.String()+" "+strconv.Itoa(b2i(op.Env.Adm >= 1))), op.Env.via() == 5))
+			default:
+				err = adminErr(adminDo("POST", "/config/", js))
 			}
 		case 'P':
 			b, _ := json.Marshal(renderApp(op.App))
@@ -467,6 +487,7 @@ func RunCase(ops []Op, enforce bool) []StepObs {
 		}
 		mu.Unlock()
 		sort.Ints(o.Alive)
+		o.DStor = DefaultStorageKey()
 		ws := caddy.VerifWritersSnapshot()
 		o.Writers[0] = ws["std:err"] - stderr0
 		for k := 1; k < NAddr; k++ {
@@ -628,7 +649,7 @@ func Attempted(op Op, running *Cfg) *Cfg {
 		if running == nil {
 			return nil
 		}
-		c := Cfg{running.Top, running.Logs, nil}
+		c := Cfg{running.Top, running.Logs, nil, running.Stor}
 		found := false
 		for _, a := range running.Apps {
 			if a.Name == op.App.Name {
@@ -645,7 +666,7 @@ func Attempted(op Op, running *Cfg) *Cfg {
 		if running == nil {
 			return nil
 		}
-		c := Cfg{running.Top, running.Logs, nil}
+		c := Cfg{running.Top, running.Logs, nil, running.Stor}
 		found := false
 		for _, a := range running.Apps {
 			if a.Name == op.Name {
